@@ -152,7 +152,7 @@ func runC06(ctx *core.Ctx) {
 	subC06.Run(ctx, n*n, func(i int) ptBinCase { return ptBinCase{"Equal", pf[i/n], pf[i%n]} })
 	subC06.Run(ctx, n, func(i int) ptBinCase { return ptBinCase{"SelfPtr", pf[i], pf[i]} })
 	if ctx.DistinctCount("equal-outcomes") != 2 || ctx.DistinctCount("nontrivial:negatives-sharing-a-coordinate") < 8 {
-		core.InternalError("C06: vacuous coverage (no hard negatives)")
+		ctx.Vacuous("C06: vacuous coverage (no hard negatives)")
 	}
 }
 
